@@ -31,7 +31,7 @@ func (Prop) Assumptions() []string {
 func (Prop) Plan(tier string) []lib.Workload {
 	n := 60
 	if tier == "thorough" {
-		n = 8000
+		n = 1000
 	}
 	return []lib.Workload{
 		{Name: "changesets", Cases: n, MinNontrivial: n / 2},
@@ -60,7 +60,7 @@ func smallDagCases(tier string) int {
 
 func fanoutCases(tier string) int {
 	if tier == "thorough" {
-		return 1500
+		return 300
 	}
 	return 24
 }
